@@ -589,6 +589,24 @@ def _on_every_path(ck: Check, reg: AlgoRegistry, learn: Fn, lcfg: CFG, site_fn: 
     if n is None:
         ck.ob("C08.4", learn, site, False, f"{cname}: soft update of `{t_attr}` is reachable in learn()")
         return
+    # the target that this step's loss bootstraps from is the one held when learn() was entered: the soft update comes after an optimizer step
+    def _is_opt_step(c: ast.Call) -> bool:
+        return last_attr(c) == "step" and isinstance(c.func, ast.Attribute) and "optimizer" in dotted(c.func.value)
+    steps = [lcfg.node_of(c) for c in calls_in(learn.node) if _is_opt_step(c)]
+    # ... or a helper of the class that steps an optimizer (DQN.update, *_learn_individual)
+    for c in calls_in(learn.node):
+        nm = call_name(c)
+        if nm.startswith("self.") and nm.count(".") == 1:
+            hm = reg.cls.methods.get(nm[5:])
+            if hm is not None and any(_is_opt_step(x) for x in calls_in(hm.node, nested=True)):
+                steps.append(lcfg.node_of(c))
+    steps = [x for x in steps if x is not None]
+    if steps:
+        after_step = any(lcfg.dominates(x, n) or (n.id in lcfg.reachable_from(x) and x.id not in lcfg.reachable_from(n)) for x in steps)
+        ck.ob("C08.4", learn, site, after_step, f"{cname}: the soft update of `{t_attr}` follows the optimizer step of the same learn() call",
+              detail="the soft update runs before the loss is computed: the target network used for this step's Bellman target is tau*online + (1-tau)*target, not the target "
+                     "the agent held when learn() was called",
+              construct=f"{cname}: soft update {e_attr}->{t_attr} after the optimizer step")
     guards = [(g, pol) for g, pol, _ in lcfg.guards_at(n)]
     delayed = [g for g, pol in guards if "policy_freq" in ast.unparse(g) and pol]
     other = [(g, pol) for g, pol in guards if "policy_freq" not in ast.unparse(g)]
@@ -680,6 +698,7 @@ _MA = "agilerl/algorithms/maddpg.py"
 _MT = "agilerl/algorithms/matd3.py"
 _R = "agilerl/algorithms/dqn_rainbow.py"
 VARIANTS = [
+    ("dqn-soft-update-before-the-loss", _D, "        loss = self.update(obs, actions, rewards, next_obs, dones)\n\n        # soft update target network\n        self.soft_update()\n", "        self.soft_update()\n        loss = self.update(obs, actions, rewards, next_obs, dones)\n", "fire", "C08.4"),
     ("shared-encoder-shallow-clone", "agilerl/utils/algo_utils.py", "        target_params: TensorDict = param_vals.clone().lock_()\n        target_params.to_module(other.encoder)", "        target_params: TensorDict = param_vals.clone(recurse=False).lock_()\n        target_params.to_module(other.encoder)", "fire", "C08.8"),
     ("dqn-target-installed-without-clone", _D, "        target_params: TensorDict = param_vals.clone().lock_()\n", "        target_params: TensorDict = param_vals.lock_()\n", "fire", "C08.8"),
     ("reinit-shared-assign-true", "agilerl/hpo/mutation.py", "            module.load_state_dict(state_dict, strict=False)\n", "            module.load_state_dict(state_dict, strict=False, assign=True)\n", "fire", "C08.8"),
